@@ -247,10 +247,20 @@ func (s *server) GetTable(ctx context.Context, req *btapb.GetTableRequest) (*bta
 func (s *server) DeleteTable(ctx context.Context, req *btapb.DeleteTableRequest) (*emptypb.Empty, error) {
 	s.mu.Lock()
 	defer s.mu.Unlock()
-	if _, ok := s.tables[req.Name]; !ok {
+	tbl, ok := s.tables[req.Name]
+	if !ok {
 		return nil, status.Errorf(codes.NotFound, "table %q not found", req.Name)
 	}
 	delete(s.tables, req.Name)
+
+	// Drop the table's persistent state, if the storage layer keeps any;
+	// otherwise the table would be back after a restart.
+	if d, ok := s.storage.(interface{ Delete(tbl *btapb.Table) }); ok {
+		tbl.mu.Lock()
+		tbl.rows.Close()
+		d.Delete(tbl.def)
+		tbl.mu.Unlock()
+	}
 	return &emptypb.Empty{}, nil
 }
 
